@@ -852,9 +852,10 @@ class Inliner:
         tnames = [t.id for t in loop.target.elts] if isinstance(loop.target, (ast.Tuple, ast.List)) and all(isinstance(t, ast.Name) for t in loop.target.elts) \
             else ([loop.target.id] if isinstance(loop.target, ast.Name) else None)
         # names the (instantiated) helper body or the caller's loop body rebinds cannot stand for a fixed value
-        helper_locals = {n.id for b0 in body for n in ast.walk(b0) if isinstance(n, ast.Name) and isinstance(n.ctx, (ast.Store, ast.Del))} \
-            | {n.id for b0 in loop.body for n in ast.walk(b0) if isinstance(n, ast.Name) and isinstance(n.ctx, (ast.Store, ast.Del))} \
-            | {a.arg for a in fn.args.args + fn.args.kwonlyargs if not (a.arg in mapping and isinstance(mapping[a.arg], ast.Name))}
+        # (the helper's own locals cannot change while the caller's body runs at the yield point; only what that body itself rebinds can)
+        helper_locals = {n.id for b0 in loop.body for n in ast.walk(b0) if isinstance(n, ast.Name) and isinstance(n.ctx, (ast.Store, ast.Del))}
+        body_locals = {n.id for b0 in body for n in ast.walk(b0) if isinstance(n, ast.Name) and isinstance(n.ctx, (ast.Store, ast.Del))} | {"self", "cls"} \
+            | {n.id for n in ast.walk(loop.iter) if isinstance(n, ast.Name)}
         direct = False
         if tnames:
             owner = loop
@@ -876,7 +877,8 @@ class Inliner:
                     y = y.value
                 if isinstance(y, ast.Constant) and y is x:
                     continue
-                if isinstance(y, ast.Name) and y.id not in helper_locals and y.id not in ("self", "cls"):
+                if isinstance(y, ast.Name) and y.id not in helper_locals and (y is x or y.id not in body_locals):
+                    # a plain name, or an attribute of something global (module.function)
                     continue
                 return None
             return vals
